@@ -38,7 +38,7 @@ def teardown(ctx):
 
 
 def cases(tier, seed):
-    out = pool.pool_cases(tier, seed, ['c01', 'c02', 'c07', 'c08', 'c13', 'c09'], 120 if tier == 'quick' else 800)
+    out = pool.pool_cases(tier, seed, ['c01', 'c02', 'c07', 'c08', 'c13', 'c09'], 120 if tier == 'quick' else 3000)
     if tier == 'thorough':
         out.insert(0, pool.ambient_case(PID))
     if tier == 'thorough':
@@ -54,7 +54,7 @@ def cases(tier, seed):
             continue
         for rep in range(1 if tier == 'quick' else 3):
             out.append({'kind': 'program', 'seed': case_seed('C11', seed, prog.name, rep), 'params': {'prog': prog.name, 'P': 2 + rep % 2, 'D': [2, 1, 3][rep % 3]}})
-    for i in range(80 if tier == 'quick' else 6000):
+    for i in range(80 if tier == 'quick' else 20000):
         out.append({'kind': 'program', 'seed': case_seed('C11', seed, 'comp', i), 'params': {'prog': 'comp', 'P': 2 + i % 2, 'D': 1 + i % 3}})
     return out
 
